@@ -16,7 +16,9 @@ from vf import common
 PROP = "C15"
 
 SHAPES = [(2,), (3,), (1, 3), (2, 2), (2, 3)]
-DTYPES = ["int64", "float64", "mixed"]  # mixed: arguments alternate int64, float64 (the narrower type first)
+# mixed: arguments alternate int64, float64 (the narrower type first); narrow types with values at their upper end, where
+# an accumulation in the argument type wraps around (uint8/int8) or saturates to a logical OR (bool)
+DTYPES = ["int64", "float64", "mixed", "uint8", "int8", "bool"]
 REDUCTIONS = ["sum", "prod", "min", "max", "mean", "std", "var"]
 BINARY = {"add": np.add, "subtract": np.subtract, "multiply": np.multiply, "divide": np.divide, "pow": np.power}
 
@@ -27,6 +29,12 @@ def arr(shape, dtype, k):
     if dtype == "mixed":
         a = base.reshape(shape).astype("int64" if k % 2 == 0 else "float64")
         return a if k % 2 == 0 else a + 0.5  # the float arguments carry a fraction that a cast would lose
+    if dtype == "uint8":
+        return (250 - base).reshape(shape).astype("uint8")
+    if dtype == "int8":
+        return (125 - base).reshape(shape).astype("int8")
+    if dtype == "bool":
+        return ((base + k) % 3 != 0).reshape(shape)
     return base.reshape(shape).astype(dtype)
 
 
